@@ -87,10 +87,10 @@ func (e *Env) evalT(s *Sexp) (string, types.Type, error) {
 				}
 			case *types.Basic:
 				if isString(ty) && head == "len" {
-					return fmt.Sprintf("(str.len %s)", t), types.Typ[types.Int], nil
+					return fmt.Sprintf("(gostr.len %s)", t), types.Typ[types.Int], nil
 				}
 				if isString(ty) && head == "arr" {
-					return fmt.Sprintf("(str.arr %s)", t), nil, nil
+					return fmt.Sprintf("(gostr.arr %s)", t), nil, nil
 				}
 			case *types.Slice:
 				if head == "arr" {
@@ -123,7 +123,7 @@ func (e *Env) evalT(s *Sexp) (string, types.Type, error) {
 		case *types.Array:
 			return fmt.Sprintf("(select %s %s)", t, ix), u.Elem(), nil
 		case *types.Basic:
-			return fmt.Sprintf("(select (str.arr %s) %s)", t, ix), types.Typ[types.Uint8], nil
+			return fmt.Sprintf("(select (gostr.arr %s) %s)", t, ix), types.Typ[types.Uint8], nil
 		}
 		return "", nil, fmt.Errorf("(at X i): %s is not indexable", ty)
 	case "appended":
@@ -430,7 +430,7 @@ func (e *Env) atom(a string) (string, types.Type, error) {
 	if ok {
 		return t, ty, nil
 	}
-	if strings.HasPrefix(a, "phi:") || strings.HasSuffix(strings.SplitN(a, ".", 2)[0], "@0") {
+	if strings.HasPrefix(a, "phi:") || strings.HasSuffix(strings.SplitN(a, ".", 2)[0], "@0") || (strings.Contains(a, ":") && !strings.HasPrefix(a, ":")) {
 		return "", nil, fmt.Errorf("%s is not in scope here", a)
 	}
 	return a, nil, nil
@@ -608,7 +608,7 @@ func (e *Env) path(a string) (string, types.Type, bool, error) {
 				if err != nil {
 					return "", nil, true, err
 				}
-				term, ty = fmt.Sprintf("(select (str.arr %s) %s)", term, ix), types.Typ[types.Uint8]
+				term, ty = fmt.Sprintf("(select (gostr.arr %s) %s)", term, ix), types.Typ[types.Uint8]
 			} else {
 				return "", nil, true, fmt.Errorf("%s: cannot step into %s", a, ty)
 			}
@@ -742,6 +742,32 @@ func (f *Frame) lookupLocal(name string) (SV, bool) {
 			}
 		}
 		return f.vals[best], true
+	}
+	if i := strings.Index(name, ":"); i > 0 {
+		// name:type picks, among several source variables of that name, the one of the given Go type
+		want := name[i+1:]
+		base := name[:i]
+		var found ssa.Value
+		n := 0
+		for _, b := range f.fn.Blocks {
+			for _, ins := range b.Instrs {
+				if d, ok := ins.(*ssa.DebugRef); ok && !d.IsAddr && d.Object() != nil && d.Object().Name() == base {
+					if d.X.Type().String() == want || d.Object().Type().String() == want {
+						if _, has := f.vals[d.X]; has && found != d.X {
+							if _, isPhi := d.X.(*ssa.Phi); isPhi && found != nil {
+								continue
+							}
+							found = d.X
+							n++
+						}
+					}
+				}
+			}
+		}
+		if found != nil {
+			return f.vals[found], true
+		}
+		return SV{}, false
 	}
 	if f.namedVals == nil {
 		f.namedVals = map[string]ssa.Value{}
